@@ -44,6 +44,7 @@ type vlog struct {
 	clients []*vClient
 	// construction gate (C08 race cases): the constructor of the client with this key announces itself
 	// on entered and waits for release
+	current map[string]*vClient // key -> the client currently inside Run
 	gateKey string
 	entered chan string
 	release chan struct{}
@@ -116,6 +117,10 @@ func (c *vClient) Run() error {
 		c.log.running = map[string]int{}
 	}
 	c.log.running[c.key]++
+	if c.log.current == nil {
+		c.log.current = map[string]*vClient{}
+	}
+	c.log.current[c.key] = c
 	if c.log.running[c.key] > 1 {
 		c.log.overlap = append(c.log.overlap, c.key)
 	}
@@ -127,6 +132,9 @@ func (c *vClient) Run() error {
 	}
 	c.log.mu.Lock()
 	c.log.running[c.key]--
+	if c.log.current[c.key] == c {
+		delete(c.log.current, c.key)
+	}
 	c.log.mu.Unlock()
 	c.log.add(c.key, c.inst, "exit")
 	return nil
